@@ -117,6 +117,20 @@ func (vfs *BasePathFS) curDir(baseDir string) string {
 	return vfs.FromBasePath(baseDir)
 }
 
+// isRoot reports whether path designates the root directory of the BasePathFS.
+func (vfs *BasePathFS) isRoot(path string) bool {
+	return vfs.ToBasePath(path) == vfs.basePath
+}
+
+// errRoot returns the error of a file system that is asked to remove its root directory.
+func (vfs *BasePathFS) errRoot() error {
+	var e avfs.Errors
+
+	e.SetOSType(vfs.OSType())
+
+	return e.InvalidArgument
+}
+
 // FromPathError restore paths in fs.PathError if necessary.
 func (vfs *BasePathFS) FromPathError(err error) error {
 	e, ok := err.(*fs.PathError)
